@@ -355,11 +355,16 @@ def run_canaries(unit, work, tier='quick'):
     """Deliberate semantic edits of the *generated* C (never of /repo): each must make a named obligation fail,
     otherwise the contracts are too weak to notice that kind of change.  Returns list of (edit, ok, detail)."""
     out = []
-    for i, (pat, rep, why) in enumerate(unit.get('canaries', [])):
+    for i, c in enumerate(unit.get('canaries', [])):
+        pat, rep, why = c[0], c[1], c[2]
+        harmless = len(c) > 3 and c[3] == 'harmless'      # an edit that keeps the property: must still be proved
         u2 = dict(unit)
         u2['name'] = '%s__canary%d' % (unit['name'], i)
+        u2['defines'] = dict(unit.get('defines', {}))
+        u2['defines']['UNIT_%s' % re.sub(r'\W', '_', unit['name'])] = 1
         u2['_mutate'] = (pat, rep)
         r = run_unit(u2, work, tier)
-        ok = r['status'] == 'failed'
-        out.append(dict(edit=why, caught=ok, by=[f['property'] for f in r.get('failed', [])][:3], status=r['status'], reason=r.get('reason', '')))
+        ok = (r['status'] == 'proved') if harmless else (r['status'] == 'failed')
+        out.append(dict(edit=why, kind='harmless edit, must still verify' if harmless else 'breaking edit, must fail', caught=ok,
+                        by=[f['property'] for f in r.get('failed', [])][:3], status=r['status'], reason=r.get('reason', '')))
     return out
